@@ -177,6 +177,47 @@ pub fn run_boundary(k: usize, out: &mut dyn Write) {
     }
 }
 
+/// Small forests with values of more than a mebibyte (SharedString, BinaryString, String): the document's text is
+/// judged like any other (tools/xmltok.py replaces every byte string longer than 8 KiB - in the forests and in the
+/// views of the document's text alike - by its SHA-256 and length, so that TLC compares digests).
+pub fn run_bigvalues(seed: u64, count: usize, out: &mut dyn Write) {
+    use rbx_dom_weak::types::{BinaryString, SharedString, Variant};
+    std::panic::set_hook(Box::new(|_| {}));
+    let known = gen::known_props(rbx_reflection_database::get());
+    let shared_known = known.iter().find(|k| k.ty == VariantType::SharedString && !k.is_alias);
+    let mut rng = StdRng::seed_from_u64(seed);
+    const MIB: usize = 1024 * 1024;
+    for i in 0..count {
+        let sizes = [MIB + 1, MIB, 3 * MIB + 2, MIB + MIB / 2, 2 * MIB - 1, 70_000];
+        let blob = |rng: &mut StdRng, n: usize| -> Vec<u8> { (0..n).map(|_| rng.gen()).collect() };
+        let mut dom = WeakDom::new(rbx_dom_weak::InstanceBuilder::new("DataModel"));
+        let root = dom.root_ref();
+        let a = blob(&mut rng, sizes[i % sizes.len()]);
+        let b = blob(&mut rng, sizes[(i + 2) % sizes.len()]);
+        let (enc, dec);
+        if i % 2 == 0 || shared_known.is_none() {
+            enc = "WriteUnknown";
+            dec = "ReadUnknown";
+            let text: String = (0..MIB + 17).map(|j| (b'a' + ((j * 7 + i) % 26) as u8) as char).collect();
+            dom.insert(root, rbx_dom_weak::InstanceBuilder::new("VerifBig").with_name("S1").with_property("BigShared", Variant::SharedString(SharedString::new(a.clone()))));
+            dom.insert(root, rbx_dom_weak::InstanceBuilder::new("VerifBig").with_name("S2").with_property("BigShared", Variant::SharedString(SharedString::new(a.clone())))
+                .with_property("BigBinary", Variant::BinaryString(BinaryString::from(b.clone()))));
+            dom.insert(root, rbx_dom_weak::InstanceBuilder::new("VerifBig").with_name("S3").with_property("BigText", Variant::String(text)));
+        } else {
+            enc = "IgnoreUnknown";
+            dec = "IgnoreUnknown";
+            let k = shared_known.unwrap();
+            dom.insert(root, rbx_dom_weak::InstanceBuilder::new(k.class.as_str()).with_name("K1").with_property(k.name.as_str(), Variant::SharedString(SharedString::new(a.clone()))));
+            dom.insert(root, rbx_dom_weak::InstanceBuilder::new(k.class.as_str()).with_name("K2").with_property(k.name.as_str(), Variant::SharedString(SharedString::new(b.clone()))));
+            dom.insert(root, rbx_dom_weak::InstanceBuilder::new(k.class.as_str()).with_name("K3").with_property(k.name.as_str(), Variant::SharedString(SharedString::new(a.clone()))));
+        }
+        let roots: Vec<Ref> = dom.root().children().to_vec();
+        let ev = xml_event(&format!("xbig:{}:{}", seed, i), &dom, &roots, enc, dec);
+        serde_json::to_writer(&mut *out, &ev).unwrap();
+        out.write_all(b"\n").unwrap();
+    }
+}
+
 /// Foreign documents (tools/foreign_xml.py): read each with rbx_xml's default options.
 pub fn run_foreign(input: &mut dyn std::io::BufRead, out: &mut dyn Write) {
     std::panic::set_hook(Box::new(|_| {}));
